@@ -385,6 +385,25 @@ class Exec:
         if out[0] == "returned":
             idx, asm, _ = out[1]
             got = (index_canon(idx) if idx is not None else None, asm_canon(asm) if asm is not None else None)
+            # O5: whatever was returned must be one index/assembly PAIR: the same
+            # sequences in the same order, each scaffold as long as its index entry
+            # (independent of the reference, which comes from the same indexer)
+            if got[0] is not None and got[1] is not None:
+                inames = [e[0] for e in got[0]]
+                snames = [sc[0] for sc in got[1][2]]
+                bad_pair = None
+                if inames != snames:
+                    bad_pair = f"index names {inames} but assembly scaffolds {snames}"
+                else:
+                    for e, sc in zip(got[0], got[1][2]):
+                        tot = sum((r[1] if r[0] == "G" else r[3] - r[2] + 1) for r in sc[1])
+                        if tot != e[1]:
+                            bad_pair = f"sequence {e[0]!r}: index length {e[1]} but the scaffold's rows cover {tot}"
+                            break
+                if bad_pair:
+                    self.violate("O5_index_assembly_mismatch", self._fault_site(),
+                                 f"{how}: load returned an index and an assembly that do not describe the same sequences: {bad_pair}", step_i)
+                    return
             if got != ref:
                 what = "index" if got[0] != ref[0] else "assembly"
                 self.violate(
